@@ -279,7 +279,9 @@ func report(prop, tier string, seed int, ip *InvProp, res *checkResult, partial 
 			}
 		}
 		for n := range vc.notes {
-			notes[n] = true
+			if !strings.HasPrefix(n, "\x00") {
+				notes[n] = true
+			}
 		}
 		solverCount := map[string]int{}
 		for _, u := range vc.unsup {
